@@ -115,6 +115,52 @@ def run(ck):
     ck.apalache('MC_Placement', 'Inv')
     ck.apalache('MC_Placement', 'Wrong', expect_error=True)
     ck.count('skipped_small_angle', skipped)
+    # (i) a cubic whose second control point alone reaches into the band where the partner lies (either coordinate), the cubic being the receiver;
+    # (ii) paths that share a vertex and whose touching members cross again in their interiors; (iii) a large cubic that was measured and then made tiny in place
+    for swap_xy in (False, True):
+        g = (lambda z: complex(z.imag, z.real)) if swap_xy else (lambda z: z)
+        cub = sp.CubicBezier(g(0j), g(3 + 1j), g(7 + 9j), g(10 + 0j))
+        for partner in (sp.Line(g(2 + 3.2j), g(12 + 3.8j)), sp.QuadraticBezier(g(1 + 3.3j), g(6 + 2.9j), g(12 + 3.6j)), sp.CubicBezier(g(1 + 3.5j), g(4 + 3.1j), g(8 + 3.9j), g(12 + 3.4j))):
+            ln_truth = sp.Line(partner.start, partner.end).intersect(cub) if not isinstance(partner, sp.Line) else partner.intersect(cub)
+            ck.case(fp=('control2-only-extreme', swap_xy, type(partner).__name__), nontrivial=True)
+            try:
+                got = cub.intersect(partner)
+                other = partner.intersect(cub)
+            except Exception as e:      # noqa
+                got, other = e, None
+            npts = lambda L_, f_: sorted((round(f_(p_).real, 3), round(f_(p_).imag, 3)) for p_ in L_)      # noqa
+            if isinstance(got, Exception) or len(got) == 0 or len(ln_truth) == 0 or (isinstance(partner, sp.Line) and npts([cub.point(a_) for a_, _ in got], lambda z: z) != npts([cub.point(b_) for _, b_ in other], lambda z: z)):
+                ck.disagree(key='intersect/C%s/crossing-lost' % cm.kind(partner), site='svgpathtools/path.py:CubicBezier.intersect', what='%r x %r = %r; the other operand order gives %r' % (cub, partner, got, other),
+                            case={'swap': swap_xy, 'partner': repr(partner)}, expected=repr(other), observed=repr(got), driver='completeness')
+    A_ = sp.CubicBezier(0j, 4 + 8j, 8 - 8j, 12 + 0j)
+    for B_ in (sp.Line(12 + 0j, 0 + 1j), sp.QuadraticBezier(12 + 0j, 7 + 3j, 1 - 1.5j), sp.Line(-1 - 2j, 0j).reversed() if False else sp.Line(12 + 0j, 2 - 0.5j)):
+        truth = [(u_, v_) for u_, v_ in A_.intersect(B_) if 0.02 < u_ < 0.98 and 0.02 < v_ < 0.98]
+        for P1, P2, sw in ((sp.Path(sp.Line(-4 + 0j, 0j), A_), sp.Path(B_, sp.Line(B_.end, B_.end - 3j)), False), (sp.Path(B_.reversed()), sp.Path(A_.reversed()), True)):
+            ck.case(fp=('shared-vertex', repr(B_), sw), nontrivial=True)
+            try:
+                res = P1.intersect(P2)
+                pts = [P1.point(a_[0]) for a_, _ in res]
+            except Exception as e:      # noqa
+                res, pts = e, []
+            missing = [A_.point(u_) for u_, _ in truth if not any(abs(A_.point(u_) - q_) <= 1e-3 for q_ in pts)]
+            if isinstance(res, Exception) or not truth or missing:
+                ck.disagree(key='Path.intersect/crossing-lost-next-to-a-shared-vertex', site='svgpathtools/path.py:Path.intersect', what='paths sharing the vertex %r: crossings of the touching members at %r are missing from %r' % (A_.end, missing, res),
+                            case={'B': repr(B_), 'swapped': sw}, expected=[str(A_.point(u_)) for u_, _ in truth], observed=repr(res), driver='completeness')
+    big = sp.CubicBezier(0j, 300 + 400j, 600 - 200j, 1000 + 300j)
+    big.length(), big.bbox()
+    for nm_, w_ in zip(('start', 'control1', 'control2', 'end'), (0j, 3e-5 + 4e-5j, 6e-5 - 2e-5j, 1e-4 + 3e-5j)):
+        setattr(big, nm_, w_)
+    fresh = sp.CubicBezier(*big.bpoints())
+    for partner in (sp.QuadraticBezier(1e-5 + 5e-5j, 4e-5 - 3e-5j, 9e-5 + 4e-5j), sp.CubicBezier(1e-5 + 5e-5j, 4e-5 - 3e-5j, 7e-5 + 6e-5j, 9e-5 - 4e-5j)):
+        ck.case(fp=('measured-then-made-tiny', type(partner).__name__), nontrivial=True)
+        try:
+            a_, b_ = sorted(big.intersect(partner)), sorted(fresh.intersect(partner))
+            ok = len(a_) == len(b_) and len(b_) >= 1 and all(abs(x_[0] - y_[0]) <= 1e-4 and abs(x_[1] - y_[1]) <= 1e-4 for x_, y_ in zip(a_, b_))
+        except Exception as e:      # noqa
+            ok, a_, b_ = False, e, None
+        if not ok:
+            ck.disagree(key='intersect/C%s/after-the-curve-was-made-tiny-in-place' % cm.kind(partner), site='svgpathtools/path.py:CubicBezier.intersect', what='a cubic of size 1000, measured, set to size 1e-4 in place, x %r: %r; a new object: %r' % (partner, a_, b_),
+                        case={'partner': repr(partner)}, expected=repr(b_), observed=repr(a_), driver='history')
     # nearly straight, nearly axis-parallel strokes (long thin boxes) against curves: evenly spaced control points make the stroke's parameter the Line's, so the
     # Line spelling of the stroke gives the true parameters (Line x Bezier is decided by the families above)
     others = [sp.CubicBezier(1 - 4j, 4.3 + 6j, 6.1 - 6j, 9 + 4.4j), sp.QuadraticBezier(2.2 - 3j, 5.3 + 9j, 8.1 - 3.3j)]
